@@ -15,7 +15,6 @@ func vh_TS() {
 	// N6: the committed configuration may or may not be applied yet
 	r.committedConfiguration.Index = vNondetU64("s.committedCfgIndex")
 	pre := vSnapshotNode(n)
-	preVisible := n.snaps.visibleCount()
 	window := vChoose("window", 3)
 	vTagInt("window", window)
 	// C14 ordering: at the instant the snapshot becomes visible the log must still hold everything
@@ -26,8 +25,10 @@ func vh_TS() {
 			vAssert(r.lastIncludedIndex == pre.lastIncludedIndex, "C14.boundary-moves-only-after-snapshot-is-visible")
 		}
 	}
+	var localRec *vSnapRec
 	n.fsm.onSnap = func() {
 		vAssert(!vHeld(&r.mu), "C20.lock-released-around-snapshot")
+		localRec = n.snaps.recs[len(n.snaps.recs)-1]
 		switch window {
 		case 1:
 			// applyLoop applies one more committed operation before the state machine serialises itself
@@ -46,6 +47,19 @@ func vh_TS() {
 			r.lastApplied, r.commitIndex = nl, nl
 			n.fsm.through = nl
 			n.log.entries = []*LogEntry{{Index: nl, Term: r.lastIncludedTerm}}
+			// the received snapshot is visible now. Its file was created when its first chunk arrived: after this
+			// node created its own snapshot file, or before (a partially received file that was waiting for its last chunk)
+			irec := &vSnapRec{meta: SnapshotMetadata{LastIncludedIndex: nl, LastIncludedTerm: r.lastIncludedTerm}, visible: true}
+			k := len(n.snaps.recs) - 1 // the local snapshot's record, created last so far
+			if vNondetBool("window.received-file-created-first") {
+				recs := append([]*vSnapRec{}, n.snaps.recs[:k]...)
+				recs = append(recs, irec, n.snaps.recs[k])
+				n.snaps.recs = recs
+				vTag("received-file", "created-before-the-local-one")
+			} else {
+				n.snaps.recs = append(n.snaps.recs, irec)
+				vTag("received-file", "created-after-the-local-one")
+			}
 			vCover("install-in-window")
 		}
 	}
@@ -53,11 +67,24 @@ func vh_TS() {
 	r.takeSnapshot()
 	r.mu.Unlock()
 	vDrain()
+	vCheckInv(n, true, true)
 	post := vSnapshotNode(n)
 	vAssert(!vHeld(&r.mu), "C18|C20.lock-released")
-	taken := n.snaps.visibleCount() > preVisible
+	// C10.newest: whatever happened, the snapshot the storage hands out as the most recent one (latest creation) is the
+	// one the log starts at - a restart restores from it and replays the log from there
+	if lr := n.snaps.latest(); lr != nil {
+		vAssert(lr.meta.LastIncludedIndex == post.lastIncludedIndex, "C10|C13|C14.most-recent-snapshot-is-the-one-the-log-starts-at")
+	}
+	taken := localRec != nil && localRec.visible
 	guardBlocks := pre.applied <= pre.lastIncludedIndex || r.committedConfiguration.Index > pre.applied
 	vAssert(vAnd(post.term == pre.term, post.state == pre.state), "C02.snapshot-keeps-role-and-term")
+	if !taken && window == 2 && localRec != nil {
+		// overtaken by the installation: the file this node wrote meanwhile never becomes visible
+		vCover("overtaken-snapshot-discarded")
+		vAssert(vAnd(localRec.discarded, !localRec.visible), "C10|C13|C14.snapshot-overtaken-by-an-installation-is-discarded")
+		vAssert(vAnd(post.lastIncludedIndex > pre.applied, post.logLen == 1), "C10|C11.no-compaction-below-installed-snapshot")
+		return
+	}
 	if !taken {
 		vCover("not-taken")
 		vAssert(guardBlocks, "C10.snapshot-taken-when-there-is-something-new")
@@ -68,7 +95,7 @@ func vh_TS() {
 	// ---- C10.guard
 	vAssert(pre.applied > pre.lastIncludedIndex, "C10.snapshot-only-of-new-state")
 	vAssert(r.committedConfiguration.Index <= pre.applied, "C10.no-snapshot-with-unapplied-configuration-change")
-	rec := n.snaps.recs[len(n.snaps.recs)-1]
+	rec := localRec
 	vAssert(rec.visible, "C14.snapshot-visible-at-return")
 	// ---- C10.label: label = an applied index of this node, with that entry's term
 	L := rec.meta.LastIncludedIndex
@@ -88,9 +115,9 @@ func vh_TS() {
 	// configuration committed at the label
 	gotCfg, derr := n.tr.DecodeConfiguration(rec.meta.Configuration)
 	vAssert(vAnd(derr == nil, gotCfg.Index == r.committedConfiguration.Index), "C10.snapshot-carries-committed-configuration")
-	// ---- compaction only if nothing newer was installed meanwhile; suffix kept (C11)
+	// ---- a snapshot that became visible was not overtaken by an installation
+	vAssert(window != 2, "C10|C13|C14.snapshot-overtaken-by-an-installation-is-discarded")
 	if window == 2 {
-		vAssert(vAnd(post.lastIncludedIndex > L, post.logLen == 1), "C10|C11.no-compaction-below-installed-snapshot")
 		return
 	}
 	vAssert(vAnd(post.lastIncludedIndex == L, post.lastIncludedTerm == rec.meta.LastIncludedTerm), "C10|C11.boundary-is-label")
